@@ -33,6 +33,8 @@ type ECfg struct {
 	R   int   `dials:"r"`
 	B   int   `dials:"b" dialsalias:"old_bee"`
 	Lim *ELim `dials:"lim"`
+	// Tags is only ever set by the file (to the empty list, when the case says so); its default is not empty
+	Tags map[string]struct{} `dials:"tags"`
 }
 
 // ELim sits behind a pointer whose default is non-nil: file values are merged into it field by field.
@@ -90,6 +92,7 @@ type ezCase struct {
 	FOpt   struct {
 		Alias bool   `json:"alias"` // the file writes leaf b under its alias name
 		Enc   string `json:"enc"`   // "kebab": Params.FileFieldNameEncoder = kebab-case (dials tags are lower_snake)
+		EmptySet bool `json:"emptyset"` // every version of the file assigns [] to the set-typed leaf Tags
 	} `json:"fopt"`
 	Ran    struct {
 		Done    bool             `json:"done"`
@@ -149,16 +152,42 @@ var ezFlagName = map[string]string{"a": "a", "c": "net-cap", "r": "r", "b": "b",
 
 // ezBKey: the key under which the file writes leaf b
 func (c *ezCase) ezBKey() string {
-	if !c.FOpt.Alias {
-		return "b"
+	k := "b"
+	if c.FOpt.Alias {
+		k = "old_bee"
+		if c.FOpt.Enc == "kebab" {
+			k = "old-bee"
+		}
 	}
-	if c.FOpt.Enc == "kebab" {
-		return "old-bee"
+	if c.FOpt.EmptySet {
+		k += "+tags" // (carried along to ezFileText)
 	}
-	return "old_bee"
+	return k
 }
 
 func ezFileText(format string, vals map[string]int, malformed bool, bkey string) string {
+	emptySet := strings.HasSuffix(bkey, "+tags")
+	bkey = strings.TrimSuffix(bkey, "+tags")
+	text := ezFileTextB(format, vals, malformed, bkey)
+	if !emptySet || malformed {
+		return text
+	}
+	switch format {
+	case "toml":
+		return "tags = []\n" + text
+	case "yaml":
+		if text == "{}\n" {
+			return "tags: []\n"
+		}
+		return "tags: []\n" + text
+	}
+	if strings.HasPrefix(text, "{}") {
+		return "{\"tags\": []}\n"
+	}
+	return "{\"tags\": [], " + text[1:]
+}
+
+func ezFileTextB(format string, vals map[string]int, malformed bool, bkey string) string {
 	if v, ok := vals["b"]; ok && bkey != "b" {
 		vals = copyVals(vals)
 		delete(vals, "b")
@@ -314,7 +343,7 @@ func runEzCase(c ezCase, dir string) (mis []ezMis) {
 		}
 	}
 	// defaults, environment, flags
-	def := &ECfg{Lim: &ELim{}}
+	def := &ECfg{Lim: &ELim{}, Tags: map[string]struct{}{"d": {}}}
 	var args []string
 	for _, n := range []string{"A", "NET_CAP", "R", "B", "LIM_MAX", "CFGFILE"} {
 		os.Unsetenv(n)
@@ -429,6 +458,28 @@ func runEzCase(c ezCase, dir string) (mis []ezMis) {
 	if err != nil {
 		return
 	}
+	// the set-typed leaf: empty while a usable file that assigns [] to it is stacked, else its default
+	tagsWant := func(fileStacked bool) string {
+		if c.FOpt.EmptySet && fileStacked {
+			return "[]"
+		}
+		return "[d]"
+	}
+	tagsOf := func(v *ECfg) string {
+		ks := make([]string, 0, len(v.Tags))
+		for k := range v.Tags {
+			ks = append(ks, k)
+		}
+		sort.Strings(ks)
+		if v.Tags == nil {
+			return "nil"
+		}
+		return fmt.Sprint(ks)
+	}
+	fileStacked := len(c.Path) > 0 && c.FState == "ok"
+	if got := tagsOf(d.View()); got != tagsWant(fileStacked) {
+		mis = append(mis, ezMis{0, "prop", fmt.Sprintf("first visible config: set-typed leaf is %s, defaults<file gives %s (the file assigns []: %v)", got, tagsWant(fileStacked), c.FOpt.EmptySet && fileStacked)})
+	}
 	v0 := d.View().leaves()
 	if !sameLeaves(v0, c.View0, c.Leaves) {
 		mis = append(mis, ezMis{0, "prop", fmt.Sprintf("first visible config %s, defaults<file<env<flags gives %s", showLeaves(v0, c.Leaves), showLeaves(c.View0, c.Leaves))})
@@ -478,6 +529,11 @@ func runEzCase(c ezCase, dir string) (mis []ezMis) {
 			mis = append(mis, ezMis{step, "prop", fmt.Sprintf("after file change %d the view is %s, re-stacking under defaults<file<env<flags gives %s", i+1, showLeaves(now, c.Leaves), showLeaves(ch.View, c.Leaves))})
 		} else if !ok {
 			mis = append(mis, ezMis{step, "model", fmt.Sprintf("file change %d: expected callback did not arrive (installed=%v)", i+1, ch.Installed)})
+		}
+		if ch.Installed {
+			if got := tagsOf(d.View()); got != tagsWant(true) {
+				mis = append(mis, ezMis{step, "prop", fmt.Sprintf("after file change %d the set-typed leaf is %s, defaults<file gives %s", i+1, got, tagsWant(true))})
+			}
 		}
 		if !reflect.DeepEqual(cur, ch.View) && ch.Installed {
 			select {
